@@ -13,6 +13,7 @@ rsync -a --exclude target --exclude target-nightly --exclude target-plain --excl
 sed -i "s#path = \"/repo\"#path = \"$X/repo\"#" "$X/harness/Cargo.toml"
 cp "$ROOT/KNOWN_FINDINGS.txt" "$X/root/"
 OUT="$ROOT/seeded/MATRIX.new.tsv"
+FINAL="${MATRIX_OUT:-$ROOT/seeded/MATRIX.tsv}"   # MATRIX_OUT=<file> keeps an existing matrix and writes a supplement
 IDS=$(seq -f 'C%02g' 1 20)
 { printf "change"; for id in $IDS; do printf "\t%s" "$id"; done; printf "\n"; } > "$OUT"
 for p in "$ROOT"/mutants/$PAT.patch "$ROOT"/seeded/$PAT/patch.diff; do
@@ -35,4 +36,4 @@ for p in "$ROOT"/mutants/$PAT.patch "$ROOT"/seeded/$PAT/patch.diff; do
   echo "$name done"
 done
 git -C "$X/repo" checkout -q -- .
-mv "$OUT" "$ROOT/seeded/MATRIX.tsv"; echo "matrix written to $ROOT/seeded/MATRIX.tsv  (X = check exits 1, . = exits 0, ? = infrastructure)"
+mv "$OUT" "$FINAL"; echo "matrix written to $FINAL  (X = check exits 1, . = exits 0, ? = infrastructure)"
